@@ -163,6 +163,77 @@ def capture_in_same_function(m):
     return False
 
 
+def operands_of(i):
+    """the values in the operand slots of an instruction, read from its public attributes"""
+    if isinstance(i, ir.Phi):
+        return list(i.inputs.values())
+    if isinstance(i, (ir.FunctionCall, ir.ProcedureCall)):
+        return [i.callee] + list(i.arguments)
+    if isinstance(i, (ir.Binop, ir.CJump)):
+        return [i.a, i.b]
+    if isinstance(i, ir.Unop):
+        return [i.a]
+    if isinstance(i, (ir.Cast, ir.AddressOf)):
+        return [i.src]
+    if isinstance(i, ir.Load):
+        return [i.address]
+    if isinstance(i, ir.Store):
+        return [i.value, i.address]
+    if isinstance(i, ir.CopyBlob):
+        return [i.dst, i.src]
+    if isinstance(i, ir.Return):
+        return [i.result]
+    if isinstance(i, ir.InlineAsm):
+        return list(i.input_values) + list(i.output_values)
+    return []
+
+
+def bookkeeping(m):
+    """The def-use information of a module seen from the PUBLIC side; None = sane, else a short description.
+      * ppci's own verify_module passes, and print_module with its default verification works,
+      * `instruction.uses` is exactly the set of values in the operand slots, and i in v.used_by <=> v in i.uses,
+      * every used value is a parameter, a module-level value of this module or an instruction that sits in a
+        block of the same function (no `Undefined` placeholder of a reader, nothing from elsewhere),
+      * every user recorded in `used_by` of a value of the module is an instruction that sits in the module."""
+    from ppci.irutils import verify_module, print_module
+    try:
+        verify_module(m)
+    except Exception as e:  # noqa
+        return f"verify:{type(e).__name__}"
+    try:
+        print_module(m, file=io.StringIO())
+    except Exception as e:  # noqa
+        return f"print-verified:{type(e).__name__}"
+    glob = {id(x) for x in list(m.externals) + list(m.variables) + list(m.functions)}
+    placed = {id(i) for f in m.functions for b in f.blocks for i in b.instructions}
+    values = list(m.externals) + list(m.variables) + list(m.functions)
+    for f in m.functions:
+        local = {id(p) for p in f.arguments} | {id(i) for b in f.blocks for i in b.instructions}
+        values += list(f.arguments)
+        for b in f.blocks:
+            for i in b.instructions:
+                if isinstance(i, ir.Value):
+                    values.append(i)
+                ops = operands_of(i)
+                if {id(v) for v in i.uses} != {id(v) for v in ops}:
+                    stale = [v for v in i.uses if id(v) not in {id(o) for o in ops}]
+                    if any(isinstance(v, ir.Undefined) and id(v) not in placed for v in stale):
+                        return "stale-placeholder-in-uses"
+                    return "uses-differ-from-operands"
+                for v in ops:
+                    if id(v) not in local and id(v) not in glob:
+                        return "placeholder-operand" if isinstance(v, ir.Undefined) else "operand-from-elsewhere"
+                    if i not in v.used_by:
+                        return "used_by-misses-user"
+    for v in values:
+        for u in v.used_by:
+            if id(u) not in placed:
+                return "used_by-lists-instruction-outside-module"
+            if v not in u.uses:
+                return "used_by-lists-non-user"
+    return None
+
+
 def ppci_verifies(m):
     from ppci.irutils import verify_module
     try:
@@ -345,6 +416,48 @@ def m_forward_calls():
     ph.set_incoming(b2, y)
     ph.set_incoming(r, w)
     ph.set_incoming(l, w)
+    return m
+
+
+def m_forward_twice():
+    """a value whose defining block is printed AFTER the using block, in TWO operand slots of one instruction,
+    for every instruction kind with two value operands (the readers resolve it through replace_by)"""
+    m = ir.Module("fwdtwice")
+    # binop x * x, and a second user of the same value in the same block
+    f, (a,) = _fn(m, "square_next", ir.i32, [("a", ir.i32)])
+    e, fin, comp = _blocks(f, "entry", "finish", "compute")
+    _add(e, ir.Jump(comp))
+    x = _add(comp, ir.Binop(a, "+", _add(comp, ir.Const(1, "one", ir.i32)), "x", ir.i32))
+    _add(comp, ir.Jump(fin))
+    sq = _add(fin, ir.Binop(x, "*", x, "sq", ir.i32))
+    s2 = _add(fin, ir.Binop(sq, "rol", x, "s2", ir.i32))
+    _add(fin, ir.Return(_add(fin, ir.Binop(s2, "-", s2, "z", ir.i32))))
+    # store w, w / cjmp w == w / memcpy(w, w, n)
+    p, (q,) = _fn(m, "poke", None, [("q", ir.ptr)])
+    pe, use, dfn, end = _blocks(p, "p_entry", "p_use", "p_def", "p_end")
+    _add(pe, ir.Jump(dfn))
+    w = _add(dfn, ir.Load(q, "w", ir.ptr))
+    _add(dfn, ir.Jump(use))
+    _add(use, ir.Store(w, w))
+    _add(use, ir.CopyBlob(w, w, 4))
+    _add(use, ir.Store(w, w, volatile=True))
+    _add(use, ir.CJump(w, "==", w, end, end))
+    _add(end, ir.Exit())
+    # call with a repeated argument, callee = the forward value as well; phi with one value from two predecessors
+    g, (fp, c) = _fn(m, "viaptr", ir.u16, [("fp", ir.ptr), ("c", ir.u16)])
+    ge, join, d, l, r = _blocks(g, "g_entry", "g_join", "g_def", "g_l", "g_r")
+    _add(ge, ir.Jump(d))
+    v = _add(d, ir.Binop(c, "+", c, "v", ir.u16))
+    cal = _add(d, ir.Cast(fp, "cal", ir.ptr))
+    _add(d, ir.CJump(v, "<", c, l, r))
+    _add(l, ir.Jump(join))
+    _add(r, ir.Jump(join))
+    ph = _add(join, ir.Phi("ph", ir.u16))
+    ph.set_incoming(l, v)
+    ph.set_incoming(r, v)
+    y = _add(join, ir.FunctionCall(cal, [v, v, ph], "y", ir.u16))
+    _add(join, ir.ProcedureCall(cal, [y, y]))
+    _add(join, ir.Return(_add(join, ir.Binop(y, "^", y, "yy", ir.u16))))
     return m
 
 
@@ -601,7 +714,8 @@ def m_blob_types(with_undefined=False):
 def corner_modules():
     """[(label, module, expected reason outside the text fragment | None, expected outside JSON fragment)]"""
     out = [("all-kinds", m_all_kinds(), None, None), ("constants", m_constants(), None, None),
-           ("forward-calls", m_forward_calls(), None, None), ("names", m_names(), None, None),
+           ("forward-calls", m_forward_calls(), None, None), ("forward-twice", m_forward_twice(), None, None),
+           ("names", m_names(), None, None),
            ("rolror", m_rol_keyword_free(), None, None), ("empty-phi", m_empty_phi(), None, None),
            ("procedures", m_procedures(), None, None)]
     for t in (ir.i32, ir.i8, ir.u64, ir.ptr, ir.f64):
@@ -660,6 +774,14 @@ def decorate(rng, g, cover):
                 c = ir.Const(rng.choice([lo, hi, -1 if t.signed else hi, rng.randint(lo, hi), 10 ** rng.randint(20, 45)]), "ic", t)
                 cover("int-const")
             f.entry.insert_instruction(c)
+        # one value in both operand slots (with the shuffled block order below: a forward reference in two slots)
+        for i in instrs:
+            if isinstance(i, (ir.Binop, ir.CJump)) and i.a.ty is i.b.ty and rng.random() < 0.2:
+                if rng.random() < 0.5:
+                    i.b = i.a
+                else:
+                    i.a = i.b
+                cover("one-value-two-slots")
         # names with a leading underscore
         for i in instrs:
             if isinstance(i, ir.Value) and rng.random() < 0.05:
@@ -669,7 +791,7 @@ def decorate(rng, g, cover):
                     f.defined_names.add(nn)
                     cover("underscore-name")
         # block order that is not a dominance order
-        if len(f.blocks) > 2 and rng.random() < 0.5:
+        if len(f.blocks) > 2 and rng.random() < 0.6:
             rest = f.blocks[1:]
             rng.shuffle(rest)
             f.blocks[1:] = rest
